@@ -1,8 +1,8 @@
 """C08 — the natural and mu translations agree with tau* on every rule they accept."""
 import re
 
-from ..facts import AnalysisGap, walk
-from .. import collect, ftpl, hq, sym
+from ..facts import AnalysisGap, callee_generic, pat_bindings, strip, walk
+from .. import collect, flow, ftpl, hq, sym
 from .c01 import check_conjoin, C, P, M, AND, ALL, IMP, NOT, LE, check_tpl, match, reduce, render, rn, var, key
 
 EXPLANATION = (
@@ -775,6 +775,14 @@ def rule_fresh(ctx):
                     groups = ((groups[0][0], tuple(new_alts)),)
                     searched = True
     alts = {ts: e for ts, e in groups[0][1]} if len(groups) == 1 and groups[0][0] == (TERMS,) else {}
+    if not (alts.get(frozenset({needs, taken(N1, False)})) == N1 and alts.get(frozenset({needs, taken(N1, True), taken(N2, False)})) == N2):
+        # third spelling: the candidate is a mutable local that a `while taken.contains(candidate)` loop redraws -
+        # `let mut c = N<i>; let mut j = 0; while taken(c) { c = N<i>_<j>; j += 1 } push(c)`: the first free name of N<i>, N<i>_0, N<i>_1, ..
+        ws = _while_search(fx, b)
+        if ws is not None:
+            alts = {frozenset({needs, taken(N1, False)}): N1, frozenset({needs, taken(N1, True), taken(N2, False)}): N2}
+            groups = (((TERMS,), tuple(alts.items())),)
+            searched = True
     ctx.add("FRESH", "head:one-pass", len(groups) == 1 and groups[0][0] == (TERMS,) and len(alts) == len(groups[0][1]) == 2, ctx.site(b),
             "the fresh variables are collected in one pass over the head terms, in their order", construct=v if not alts else None)
     ok = alts.get(frozenset({needs, taken(N1, False)})) == N1
@@ -792,6 +800,89 @@ def rule_fresh(ctx):
     # distinctness: names for different i differ (N<i> / N<i>_<j> contain i)
     ctx.add("FRESH", "head:distinct", ok and ok2 and all(e[0] == "format" and e[2][:1] == (I_,) for e in alts.values()), ctx.site(b),
             "every candidate name contains the index of its head term, so two head terms never share a variable")
+
+
+def _while_search(fx, b):
+    """recognise the while-spelling of the fresh-name search in fresh_variables_for_head_atom (all parts by role); None when it is not that"""
+    from ..facts import local_id_of as lid
+    loops = hq.for_loops(b["body"])
+    if len(loops) != 1:
+        return None
+    _, iterable, pat, body = loops[0]
+    if "terms" not in hq.render(iterable) or "enumerate" not in hq.render(iterable):
+        return None
+    binds = list(pat_bindings(pat)) if pat else []
+    if len(binds) != 2:
+        return None
+    idx_id, term_id = binds[0]["id"], binds[1]["id"]
+    lets = hq.let_by_id(b["body"])
+    whiles = [n for n in walk(body) if n.get("k") == "Loop" and n.get("src") == "While"]
+    if len(whiles) != 1:
+        return None
+    w = whiles[0]
+    ifs = [n for n in walk(w) if n.get("k") == "If" and n.get("desugar") == "WhileLoop"]
+    if len(ifs) != 1:
+        return None
+    cond = strip(ifs[0]["cond"])
+    if not (cond.get("k") == "MethodCall" and cond.get("method") == "contains" and len(cond.get("args", [])) == 1):
+        return None
+    taken_id = lid(cond["recv"])
+    t_init = lets.get(taken_id, {}).get("init")
+    ti_ = strip(t_init) if isinstance(t_init, dict) else {}
+    param_ids = {q_["id"] for q_ in b.get("params", []) if q_.get("p") == "Bind"}
+    if not (ti_.get("k") == "MethodCall" and ti_.get("method") == "variables" and lid(ti_["recv"]) in param_ids):
+        return None          # the taken names are the variables of the whole head atom
+    cand_ids = {lid(n) for n in walk(cond["args"][0]) if n.get("k") == "Path" and n.get("res", {}).get("r") == "local"} - {None}
+    if len(cand_ids) != 1 or "Variable" not in hq.render(cond["args"][0]):
+        return None
+    cid = cand_ids.pop()
+
+    def fmt_of(e):
+        ms = [n for n in walk(e) if n.get("mac") == "format" and "mac_src" in n]
+        if len(ms) != 1:
+            return None, set()
+        tpl = hq.macro_template(ms[0]["mac_src"])
+        ids_ = {lid(n) for n in walk(ms[0]) if n.get("k") == "Path" and n.get("res", {}).get("r") == "local"} - {None}
+        ids_ &= {k_ for k_, v_ in lets.items() if v_.get("pat", {}).get("name") != "args"} | {idx_id, term_id}      # (format! binds `args` of its own)
+        return re.sub(r"\{\w*\}", "{}", tpl or ""), ids_
+    c_init = lets.get(cid, {}).get("init")
+    t0, ids0 = fmt_of(c_init) if c_init is not None else (None, set())
+    if t0 != "N{}" or ids0 != {idx_id}:
+        return None
+    then = ifs[0]["then"]
+    stmts = [hq.stmt_expr(s_) for s_ in hq.stmts_of(then)] + ([then.get("expr")] if isinstance(then.get("expr"), dict) else [])
+    stmts = [strip(x) for x in stmts if isinstance(x, dict)]
+    assigns = [(i_, x) for i_, x in enumerate(stmts) if x.get("k") == "Assign" and lid(x["l"]) == cid]
+    incs = [(i_, x) for i_, x in enumerate(stmts) if x.get("k") == "AssignOp" and x.get("op") in ("Add", "AddAssign") and strip(x["r"]).get("v") == 1]
+    if len(assigns) != 1 or len(incs) != 1 or assigns[0][0] > incs[0][0]:
+        return None
+    jid = lid(incs[0][1]["l"])
+    j_init = strip(lets.get(jid, {}).get("init", {}))
+    t1, ids1 = fmt_of(assigns[0][1]["r"])
+    if t1 != "N{}_{}" or ids1 != {idx_id, jid} or j_init.get("v") != 0:
+        return None
+    # the name is pushed after the loop, for terms that are not regular of the first kind only
+    pushes = [n for n in walk(body) if n.get("k") == "MethodCall" and n.get("method") == "push" and lid(n["args"][0]) == cid]
+    guards = [n for n in walk(body) if n.get("k") in ("Call", "MethodCall") and "is_term_regular_of_first_kind" in (callee_generic(n) or hq.render(n))
+              and term_id in {lid(a_) for a_ in walk(n) if a_.get("k") == "Path"}]
+    if len(pushes) != 1 or len(guards) != 1:
+        return None
+    order_ = {id(n): i_ for i_, n in enumerate(walk(body))}
+    guarded = False
+    for n in walk(body):
+        if n.get("k") != "If" or not any(x is guards[0] for x in walk(n["cond"])):
+            continue
+        c_ = strip(n["cond"])
+        negated = c_.get("k") == "Unary" and c_.get("op") == "Not"
+        inside_then = any(x is pushes[0] for x in walk(n["then"]))
+        if negated and inside_then:
+            guarded = True          # `if !first_kind(term) { .. push .. }`
+        if not negated and "else" not in n and any(x.get("k") == "Continue" for x in walk(n["then"])) and not inside_then \
+                and order_.get(id(pushes[0]), -1) > order_.get(id(n), 10 ** 9):
+            guarded = True          # `if first_kind(term) { continue }` .. push
+    if not guarded:
+        return None
+    return True
 
 
 def rule_sort_sites(ctx):
